@@ -54,6 +54,11 @@ chk("C10", "exploration", T + "export/import steps inside lock-step histories (s
 chk("C06", "exploration", "deterministic simulation of schedules: writer, readers and iavl's own pruner/exporter goroutines run as tasks of a seeded cooperative scheduler (guarded hooks in iavl, lock-free storage calls and operation boundaries are yield points, simulated clock for the pruner's sleeps); race-detector build whose hand-off is hidden from the detector; every read compared with the precomputed contents of its version",
     "Seeded search over schedules x histories x {cache 0/small/large} x {fast index on/off} x {sync, async pruning, SetCommitting bracket}. Oracles: exact contents/proofs/export stream per version, no data race (happens-before detector on a serialised execution whose scheduler hand-offs create no happens-before edges), pinned versions not deleted, no panic, no deadlock. Recorded schedules are explicit, replayable and minimised.", "Preemption only at yield points (races between yield points are still found by the HB detector). Readers only hold versions the writer does not prune (lease registry). " + N, "DESIGN.md §5 C06")
 
+chk("C19", "exploration", "deterministic simulation: normal-form histories executed in lock-step on the SQLite-backed v2 tree (real SQLite files in a per-run scratch directory), the v1 tree on the simulated disk and the reference models; option swarm; simulator-owned order of the two halves of every SaveVersion",
+    "Seeded normal-form histories (incl. empty versions and trees shrinking to empty) x option swarm (checkpoint interval, height filter, eviction depth, sharding, checkpoint memory); at every commit v2 hash = v1 hash = R2 hash, after every step Get/Has/Size/Height and forward/reverse/inclusive iterators over the bound set vs R1.", "v2 runs on real SQLite files (third party, trusted); only API results enter the event log. " + N, "DESIGN.md §5 C19")
+chk("C20", "exploration", "deterministic simulation: normal-form histories on v2 with close/reopen points, LoadVersion of every retained target on fresh handles, continuation from loaded versions, DeleteVersionsTo whose asynchronous progress in both writer loops is owned by the simulator through guarded prune gates (0, 1, few, all steps granted), snapshots (save / export pre|post + import)",
+    "Reload of every retained version vs R1/R2, continuation hashes vs the uninterrupted run, loadability after pruning whatever the prune progress at close, snapshot import; prune progress tokens make 'close immediately', 'save interrupts a half-done prune' and 'prune completes' replayable.", "Clean close/reopen only: point-in-time crash images of SQLite files cannot be produced deterministically from outside. SQLite trusted. " + N, "DESIGN.md §5 C20")
+
 NOT_YET = {
 }
 
